@@ -78,7 +78,8 @@ def gen_cases(rng, tier):
         dt = rng.choice(["complex", "complex", "complex", "float", "int"])
         sc = rng.choice([1.0, 1e-3, 1e-2, 30.0])
         G, NF = _gnf(rng)
-        cases.append({"kind": "edfa", "field": F.gen_field(rng, n, npol, nk, dt, sc), "G": G, "NF": NF, "BW": None,
+        dark = rng.choice([0, 1]) if (npol == 2 and rng.random() < 0.2) else None      # x-only / y-only field, noise on both rows
+        cases.append({"kind": "edfa", "field": F.gen_field(rng, n, npol, nk, dt, sc, dark), "G": G, "NF": NF, "BW": None,
                       "gv": _gvspec(rng), "np_seed": rng.randrange(1 << 31)})
     for _ in range(30 if tier == "quick" else 300):
         n = rng.choice([16, 17, 33, 64, 128, 257, 8, 15])       # 4th-order Bessel: padding 15 -> rows of <= 15 samples are rejected
@@ -349,7 +350,7 @@ def _compare_bw(case, res, rep):
     isig = F.c_rows(bw["sig"])
     inoise = None if bw["noise"] is None else F.c_rows(bw["noise"])
     un = res["main"]
-    scale = max(F.maxabs(F.c_rows(un["sig"]), None if un.get("noise") is None else F.c_rows(un["noise"])), 1e-300)
+    scale = F.scales(F.c_rows(un["sig"]), None if un.get("noise") is None else F.c_rows(un["noise"]))
     return out + F.diff_fields("edfa_bw", isig, inoise, [np.array(a, dtype=complex) for a in m_rows],
                                None if m_noise is None else [np.array(a, dtype=complex) for a in m_noise], scale)
 
@@ -386,7 +387,7 @@ def _compare_main(case, res, reqs, replies):
         t = Toks(rep[3:]); p = t.f()
         # the statistical oracle uses its own reference value; here the model's P_ase is tied to the measured power at 6 sigma
         n = res["soak"]["n"]
-        if abs(res["soak"]["mean_power"] - p) > 6 * p / math.sqrt(2 * n):
+        if not (abs(res["soak"]["mean_power"] - p) <= 6 * p / math.sqrt(2 * n)):
             return [f"soak: measured ASE power {res['soak']['mean_power']:.6g} vs model P_ase {p:.6g} (6 sigma = {6 * p / math.sqrt(2 * n):.3g})"]
         return []
     if m["status"] == "timeout":
@@ -401,7 +402,10 @@ def _compare_main(case, res, reqs, replies):
     if m["npol"] != 2 or m["noise"] is None:
         return [f"implementation returned n_pol={m['npol']} noise={'present' if m['noise'] is not None else 'absent'}; the model always returns two rows with noise"]
     isig = F.c_rows(m["sig"]); inoise = F.c_rows(m["noise"])
-    scale = max(F.maxabs(isig, inoise), 1e-300)
+    fl = case["field"]
+    g_ = math.sqrt(10.0 ** (case["G"] / 10.0))
+    # signal relative to sqrt(G)*|input signal|; noise relative to what the model itself puts there (sqrt(G)*noise + ASE)
+    scale = (max(g_ * F.maxabs(F.c_rows(fl["sig"])), 1e-300), max(F.maxabs([mnx, mny]), 1e-300))
     out += F.diff_fields("edfa", isig, inoise, [mx, my], [mnx, mny], scale)
     # scale factor sqrt(P_ase/4): reconstructed from the twin's ASE and the recorded draw
     if len(replies) > 1 and replies[1].startswith("ok ") and res.get("twin", {}).get("status") == "ok" and res["twin"]["noise"] is not None:
@@ -413,7 +417,7 @@ def _compare_main(case, res, reqs, replies):
         ok = np.abs(den) > 1e-3
         if np.any(ok):
             s_impl = float(np.median(num[ok] / den[ok]))
-            if abs(s_impl - s_model) > 1e-9 * max(abs(s_model), 1e-300) + 1e-300:
+            if not (abs(s_impl - s_model) <= 1e-9 * abs(s_model)):
                 out.append(f"ASE scale factor: implementation {s_impl:.12g}, model sqrt(P_ase/4) = {s_model:.12g}")
     return out
 
@@ -439,7 +443,7 @@ def _oracle_ref(tag, un, bw, ref):
         return []
     if bw.get("status") != "ok":
         return [("C10:bw-accept", f"{tag}: EDFA(..., BW) failed: {str(bw)[:120]}")]
-    sc = max(F.maxabs(F.c_rows(un["sig"]), None if un["noise"] is None else F.c_rows(un["noise"])), 1e-300)
+    sc = F.scales(F.c_rows(un["sig"]), None if un["noise"] is None else F.c_rows(un["noise"]))
     d = F.diff_fields("output vs bessel(BW/2, fs=gv.fs) applied to the unfiltered output", F.c_rows(bw["sig"]),
                       None if bw["noise"] is None else F.c_rows(bw["noise"]), F.c_rows(ref["sig"]),
                       None if ref["noise"] is None else F.c_rows(ref["noise"]), sc)
@@ -455,6 +459,9 @@ def oracle(case, res):
     m = res["main"]
     if m["status"] == "timeout":
         return [("C10:timeout", "EDFA did not return")]
+    for path, part, row, idx in F.nonfinite_outputs({k: res[k] for k in ("main", "twin", "bw", "bpf", "steps") if k in res})[:3]:
+        # every generated input is finite, G/NF/gv inside the statement's ranges: the documented formulas give finite outputs
+        v.append(("C10:non-finite", f"{path}: {part} row {row} sample {idx} is NaN/inf although all inputs are finite"))
     if case["kind"] == "edfa_hist":
         for st in res.get("steps", []):
             tag = f"call {st['i']} of the history {[g['sps'] * g['R'] for g in case['seq']]} (fs={st.get('fs', 0):.4g}, BW={case['BW']:.4g})"
@@ -477,21 +484,21 @@ def oracle(case, res):
         if m["cls"] != "optical_signal" or m["npol"] != 2 or m["shape"] != [2, n] or s["shape"] != [2, n]:
             return v + [("C10:layout", f"output {m['cls']} n_pol={m['npol']} shape={m['shape']} noise={s['shape']}")]
         band = 6 * P / math.sqrt(2 * n)
-        if abs(s["mean_power"] - P) > band:
+        if not (abs(s["mean_power"] - P) <= band):
             v.append(("C10:ase-power", f"sample ASE power {s['mean_power']:.6g} W over {n} samples, documented NF*h*f0*(G-1)*fs = {P:.6g} W (6 sigma band {band:.3g})"))
         for k, (var, mean, l1) in enumerate(zip(s["var"], s["mean"], s["lag1"])):
-            if abs(var - P / 4) > 6 * (P / 4) * math.sqrt(2.0 / n):
+            if not (abs(var - P / 4) <= 6 * (P / 4) * math.sqrt(2.0 / n)):
                 v.append((f"C10:ase-variance:{k}", f"component {k}: variance {var:.6g}, documented P_ase/4 = {P / 4:.6g}"))
-            if abs(mean) > 6 * math.sqrt(P / 4 / n):
+            if not (abs(mean) <= 6 * math.sqrt(P / 4 / n)):
                 v.append((f"C10:ase-mean:{k}", f"component {k}: mean {mean:.3g} not zero within 6 sigma"))
-            if abs(l1) > 6 * (P / 4) / math.sqrt(n):
+            if not (abs(l1) <= 6 * (P / 4) / math.sqrt(n)):
                 v.append((f"C10:ase-white:{k}", f"component {k}: lag-1 autocovariance {l1:.3g} not zero within 6 sigma"))
-        if s["maxcorr"] > 6 / math.sqrt(n):
+        if not (s["maxcorr"] <= 6 / math.sqrt(n)):
             v.append(("C10:ase-independence", f"correlation {s['maxcorr']:.3g} between ASE components exceeds 6/sqrt(N)"))
         c = complex(*fl["const"])
-        if abs(complex(*s["sig_x0"]) - g * c) > 1e-12 * abs(g * c):
+        if not (abs(complex(*s["sig_x0"]) - g * c) <= 1e-12 * abs(g * c)):
             v.append(("C10:signal-gain", "soak: x signal is not sqrt(G) * input"))
-        if npol == 1 and s["sig_y_max"] != 0.0:
+        if npol == 1 and not (s["sig_y_max"] == 0.0):
             v.append(("C10:y-zero", "soak: y-polarisation of a one-polarisation input carries signal"))
         return v
     # layout
@@ -505,10 +512,10 @@ def oracle(case, res):
     ssc = max(F.maxabs(sig_in) * g, 1e-300)
     # signal part
     if not F.close(so[0], g * sig_in[0], ssc, rel=1e-12, abs_=0.0):
-        v.append(("C10:signal-gain:x", f"x signal is not sqrt(G)*input (max diff {np.max(np.abs(so[0] - g * sig_in[0])):.3e})"))
+        v.append(("C10:signal-gain:x", f"x signal is not sqrt(G)*input (max diff {F._maxdiff(so[0], g * sig_in[0]):.3e})"))
     if npol == 2:
         if not F.close(so[1], g * sig_in[1], ssc, rel=1e-12, abs_=0.0):
-            v.append(("C10:signal-gain:y", f"y signal is not sqrt(G)*input (max diff {np.max(np.abs(so[1] - g * sig_in[1])):.3e})"))
+            v.append(("C10:signal-gain:y", f"y signal is not sqrt(G)*input (max diff {F._maxdiff(so[1], g * sig_in[1]):.3e})"))
     elif np.any(so[1] != 0):
         v.append(("C10:y-zero", f"y-polarisation of a one-polarisation input carries signal (max {np.max(np.abs(so[1])):.3g})"))
     # noise part through the twin call
@@ -528,7 +535,7 @@ def oracle(case, res):
         got = no[k] - ase[k]
         if not F.close(got, want, nsc, rel=1e-9, abs_=0.0):
             what = "incoming noise is not amplified by sqrt(G)" if noise_in is not None and (k == 0 or npol == 2) else "noise beyond the ASE realisation"
-            v.append((f"C10:noise-gain:{name}", f"{name}: out.noise - ASE(twin) differs from the required {'sqrt(G)*in.noise' if (noise_in is not None and (k == 0 or npol == 2)) else '0'} by {np.max(np.abs(got - want)):.3e} ({what}; noise {fl['noise_kind']})"))
+            v.append((f"C10:noise-gain:{name}", f"{name}: out.noise - ASE(twin) differs from the required {'sqrt(G)*in.noise' if (noise_in is not None and (k == 0 or npol == 2)) else '0'} by {F._maxdiff(got, want):.3e} ({what}; noise {fl['noise_kind']})"))
     # ASE realisation: its 4N real components are the unit-variance draws times sqrt(P_ase/4) — whichever draw feeds whichever
     # component (the statement fixes the distribution, not the bookkeeping): compare the sorted magnitudes.
     # Only when the generator was observed to hand out exactly 4N standard-normal values; otherwise the soak decides.
@@ -537,7 +544,7 @@ def oracle(case, res):
         comp = np.sort(np.abs(np.concatenate([ase[0].real, ase[0].imag, ase[1].real, ase[1].imag])))
         s = math.sqrt(P / 4) if P >= 0 else float("nan")
         if not F.close(comp, s * d, max(s * float(d[-1]) if d.size else 0.0, 1e-300), rel=1e-9, abs_=0.0):
-            k = int(np.argmax(np.abs(comp - s * d)))
+            k = int(np.argmax(np.where(np.isfinite(comp - s * d), np.abs(comp - s * d), np.inf)))
             v.append(("C10:ase-scale", f"the real components of the ASE are not the unit-variance draws times sqrt(NF*h*f0*(G-1)*fs/4) = {s:.6g} "
                                        f"(P_ase={P:.6g}); e.g. order statistic {k}: {comp[k]:.6g} vs {s * d[k]:.6g}"))
     # BW: the documented filter for the rate in force (fresh scipy design), and composition with the library's own BPF
@@ -553,7 +560,7 @@ def oracle(case, res):
         else:
             d = F.diff_fields("EDFA(x,G,NF,BW) vs BPF(EDFA(x,G,NF),BW)", F.c_rows(bw["sig"]), None if bw["noise"] is None else F.c_rows(bw["noise"]),
                               F.c_rows(bp["sig"]), None if bp["noise"] is None else F.c_rows(bp["noise"]),
-                              max(F.maxabs(so, no), 1e-300))
+                              F.scales(so, no))
             if d:
                 v.append(("C10:bw-compose", "; ".join(d)[:300]))
     return v
@@ -572,6 +579,8 @@ def features(case, res):
     else:
         fl = case["field"]
         f += [f"npol={fl['npol']}", "noise=" + fl["noise_kind"], "dtype=" + fl["dtype"], f"N={fl['n']}"]
+        if fl.get("dark") is not None:
+            f.append("dark-pol" + ("+noise" if fl["noise"] is not None else ""))
     f.append("G=" + ("0" if case["G"] == 0 else "40" if case["G"] == 40 else "mid"))
     f.append(f"sps={case['gv']['sps']}")
     if case["BW"] is not None:
